@@ -147,6 +147,42 @@ def _node(op, av, groups):
     raise Unsupported(f'node {op}')
 
 
+def _has_lookahead(items):
+    for op, av in items:
+        if op in (sc.ASSERT, sc.ASSERT_NOT):
+            return True
+        if op is sc.BRANCH and any(_has_lookahead(list(b)) for b in av[1]):
+            return True
+        if op is sc.SUBPATTERN and _has_lookahead(list(av[3])):
+            return True
+    return False
+
+
+def _strip_lookahead(items):
+    """language over-approximation: drop lookaheads (callers that care use alternatives())"""
+    out = []
+    for op, av in items:
+        if op in (sc.ASSERT, sc.ASSERT_NOT):
+            continue
+        if op is sc.BRANCH:
+            out.append((op, (av[0], [_strip_lookahead(list(b)) for b in av[1]])))
+        else:
+            out.append((op, av))
+    return out
+
+
+def _split_lookahead(items):
+    neg = None
+    if items and items[-1][0] is sc.ASSERT_NOT and items[-1][1][0] == 1:
+        sub = list(items[-1][1][1])
+        if len(sub) == 1 and sub[0][0] in (sc.IN, sc.LITERAL):
+            neg = _node(sub[0][0], sub[0][1], {})
+            items = items[:-1]
+    if _has_lookahead(items):
+        raise Unsupported('lookaround that is not a trailing one-character negative lookahead')
+    return (_seq(items, {}), neg)
+
+
 class Rx:
     """pattern -> body regex + anchor flags + per-group sub-regexes"""
 
@@ -171,17 +207,19 @@ class Rx:
             if op is sc.AT:
                 raise Unsupported('anchor inside the pattern')
         self._groups = {}
-        self.body = _seq(items, self._groups)
+        self.has_lookahead = _has_lookahead(items)
+        self.body = _seq(_strip_lookahead(items), self._groups)
         self.groupindex = dict(pat.groupindex)
         self._alts = None
         if len(items) == 1 and items[0][0] is sc.BRANCH:
-            self._alts = [_seq(list(b), {}) for b in items[0][1][1]]
+            self._alts = [_split_lookahead(list(b)) for b in items[0][1][1]]
 
     def group(self, name):
         return self._groups[self.groupindex[name] if isinstance(name, str) else name]
 
     def alternatives(self):
-        return self._alts or [self.body]
+        """list of (body regex, negative one-character lookahead class or None) per top-level alternative"""
+        return self._alts or [(self.body, None)]
 
     def lang_match(self):
         """strings s for which pattern.match(s) succeeds"""
@@ -209,6 +247,18 @@ class Rx:
         else:
             tail = FULL
         return z3.Concat(head, body, tail)
+
+
+def strval(text):
+    """z3 string constant for an arbitrary Python str (z3 literals interpret \\u escapes, so backslashes and non-printables are encoded)"""
+    out = []
+    for c in text:
+        o = ord(c)
+        if c == '\\' or o < 0x20 or o > 0x7e:
+            out.append('\\u{%x}' % o)
+        else:
+            out.append(c)
+    return z3.StringVal(''.join(out))
 
 
 def model_str(model, var):
@@ -242,7 +292,7 @@ def validate(rx, samples, mode='match'):
         real = (rx.pattern.search(s) if mode == 'search' else rx.pattern.match(s)) is not None
         sol = z3.Solver()
         sol.set('timeout', 20000)
-        sol.add(z3.InRe(z3.StringVal(s), lang))
+        sol.add(z3.InRe(strval(s), lang))
         got = str(sol.check())
         if (got == 'sat') != real:
             bad.append((s, real, got))
